@@ -116,7 +116,8 @@ def run(tier, seed):
     jobs = []
     meta = []
     for bi, (n, s, a) in enumerate(base):
-        use_rows = rows if not quick else [rows[(bi * 7 + k) % len(rows)] for k in range(6)]
+        # every row is used by some program; each program is compiled under 6 (quick) / 40 (thorough) of them, round-robin
+        use_rows = [rows[(bi * 7 + k) % len(rows)] for k in range(6 if quick else min(40, len(rows)))]
         for row in use_rows:
             args = list(a) + [x for x in row_args(row) if x not in a]
             meta.append((n, s, args, row))
